@@ -176,7 +176,9 @@ class State(_train.Listener):
                     ncmp += 1
                 ana = -float(gr[idx])
                 ctx.maxi("max:err_over_tol", abs(ana - R) / tol)
-                if not abs(ana - R) <= tol:
+                if not abs(ana - R) <= tol and not numdiff.confirmed_mismatch(f, x0, ana, scale, ferr):
+                    ctx.count("mismatch_not_confirmed_at_finer_scales")
+                elif not abs(ana - R) <= tol:
                     ctx.violation("update-direction", f"update-not-gradient/{fam}/param{j}",
                                   observed={"minus_grad_entry": ana, "param": j, "index": [int(x) for x in idx],
                                             "step": k, "gemini": type(gem).__name__, "ovo": getattr(gem, "ovo", None),
@@ -247,6 +249,12 @@ def run_case(case, ctx, st):
         params["batch_size"] = [1, 2, -(-n // 3), n, None, n + 3][int(rng.integers(0, 6))]
     if name in gen.SPARSE:
         params["alpha"] = float([0.0, 1e-3, 1e-2, 0.1][int(rng.integers(0, 4))])
+        if rng.random() < 0.35:
+            # strong penalty: whole features are discarded during the fit and later steps run with zeroed rows
+            params.update(alpha=float(rng.choice([2.0, 5.0, 8.0, 15.0])), solver="sgd", learning_rate=0.1,
+                          max_iter=int(rng.integers(15, 41)))
+            epochs = params["max_iter"]
+            strong = True
     if name == "Douglas" and rng.random() < 0.35:
         params["temperature"] = float(10 ** rng.uniform(-3, -1.5))     # saturated soft bins (memberships exactly 0)
     y = gen.precomputed_for(rng, pre, n)
@@ -280,6 +288,8 @@ def run_case(case, ctx, st):
     total = epochs * nb
     k_extra = 2
     st.monitor_steps = {0, total - 1} | {int(x) for x in rng.integers(0, total, size=k_extra)}
+    if name in gen.SPARSE and params.get("alpha", 0) >= 2.0:
+        st.monitor_steps |= {int(x) for x in rng.integers(total // 3, total, size=4)}
     use_path = name in gen.SPARSE and i % 4 == 0 and not decorated
     st.path_prob = 0.02
     ctx.case = dict(case, estimator=name, params=params, n=n, d=d, decorated=decorated, path=use_path)
